@@ -103,14 +103,15 @@ OutLen(n, c)    == IF StoresRaw(n, c) THEN n ELSE 1 + c
 (* The decompressor.  DecompressPlan(m) = sequence of [stage, exp]: the    *)
 (* stages decompress_with_monitor / decompress_multiple_internal apply, in *)
 (* order, with the expected-size argument each receives:                   *)
-(*   "n" the caller's size, "x4" = 4n, "est" = a max(..) estimate.         *)
+(*   "n" the caller's size, "x4" = 4n, "est" = a max(..) estimate,          *)
+(*   "bound" = an upper bound the stage does not compare for equality.     *)
 
 DecAdpcm(m) == IF Has(m, ADPCM_STEREO) THEN <<[stage |-> "adpcm_stereo", exp |-> "n"]>>   \* both bits: "assume stereo"
                ELSE IF Has(m, ADPCM_MONO) THEN <<[stage |-> "adpcm_mono", exp |-> "n"]>> ELSE <<>>
 DecPrimary(m) ==
   IF Has(m, HUFFMAN) THEN <<[stage |-> "huffman", exp |-> "est"]>>
   ELSE IF Has(m, ZLIB) THEN <<[stage |-> "zlib", exp |-> "x4"]>>
-  ELSE IF Has(m, BZIP2) THEN <<[stage |-> "bzip2", exp |-> "x4"]>>
+  ELSE IF Has(m, BZIP2) THEN <<[stage |-> "bzip2", exp |-> "bound"]>>   \* decompress_bounded since 58eef5f (was "x4")
   ELSE IF Has(m, SPARSE) THEN <<[stage |-> "sparse", exp |-> "x4"]>>
   ELSE IF Has(m, IMPLODE) THEN <<[stage |-> "implode", exp |-> "x4"]>> ELSE <<>>
 DecPkware(m) == IF Has(m, PKWARE) THEN <<[stage |-> "pkware", exp |-> "est"]>> ELSE <<>>
@@ -141,7 +142,7 @@ Panicked == <<"panic">>
 Unapply(d, t) == IF t = Panicked THEN Panicked
                  ELSE IF t = Garbage \/ Len(t) # 3 \/ t[1] # d.stage THEN Garbage
                  ELSE IF t[2] \notin DecModes(d.stage) THEN Panicked             \* unimplemented!() in the decoder
-                 ELSE IF StrictSize(d.stage) /\ d.exp # "n" THEN Garbage        \* Err(size mismatch)
+                 ELSE IF StrictSize(d.stage) /\ d.exp = "x4" THEN Garbage       \* Err(size mismatch)
                  ELSE t[3]
 Decode(plan, t) == LET F[j \in 0..Len(plan)] == IF j = 0 THEN t ELSE Unapply(plan[j], F[j-1]) IN F[Len(plan)]
 
@@ -151,8 +152,10 @@ Inverts(m) == Decode(DecompressPlan(m), Encode(CompressPlan(m).stages, Src)) = S
 StageSet(sq) == {sq[j] : j \in 1..Len(sq)}
 
 (* Named deviations of decompress_multiple_internal from "reverse of compress_multiple":          *)
-DevMultiBzip2StrictSize(m) ==      \* multi selectors hand 4n to bzip2::decompress, which wants the exact size
-  KindOf(m) = "multi" /\ ~Has(m, HUFFMAN) /\ ~Has(m, ZLIB) /\ Has(m, BZIP2)
+DevMultiBzip2StrictSize(m) ==      \* a multi selector hands 4n to bzip2::decompress, which wants the exact size
+  \* (F-C03-c; true for every multi selector with BZIP2 as primary stage until 58eef5f, never since)
+  KindOf(m) = "multi" /\ \E j \in 1..Len(DecompressPlan(m)) :
+      DecompressPlan(m)[j].stage = "bzip2" /\ DecompressPlan(m)[j].exp = "x4"
 DevBothAdpcmBits(m) ==             \* encoder picks mono, decoder "assumes stereo"
   Has(m, ADPCM_MONO) /\ Has(m, ADPCM_STEREO)
 DevIgnoredBit(m) ==                \* encoder ignores IMPLODE / second bits that the decoder acts on
